@@ -7,9 +7,9 @@ import os
 VERIF = os.path.dirname(os.path.dirname(os.path.abspath(__file__)))
 
 P = {
- 'C01': ('static decision of R1.1-R1.10: untagged-response order automaton over the comparison generator CFG, EXPUNGE/EXISTS argument def-use, hide-expunged dominance in the three sequence-number handlers, fork-once and field ownership, index coherence, seq=index+1, view-before-merge, every forked diff of the IDLE loop is written, per-command marks reset when a handler fails',
+ 'C01': ('static decision of R1.1-R1.11: untagged-response order automaton over the comparison generator CFG, EXPUNGE/EXISTS argument def-use, hide-expunged dominance in the three sequence-number handlers, fork-once and field ownership, index coherence, seq=index+1, view-before-merge, every forked diff of the IDLE loop is written, per-command marks reset when a handler fails, the count SELECT announces is the synchronized view\'s',
          'CFG order automaton + dominance + def-use + field-ownership enumeration (ast)'),
- 'C02': ('static decision of R2.1-R2.9: mutate=>log=>notify post-dominance at every dict mailbox mutation, expunge record never overwritten, no suspension inside the consume window, every session method returns a merged selection, merge applies both halves, maildir full diff, flag-key mirror coherence, diff machinery reads snapshots not live objects, change-log buckets / UID records dropped only when empty / absent',
+ 'C02': ('static decision of R2.1-R2.10: mutate=>log=>notify post-dominance at every dict mailbox mutation, expunge record never overwritten, no suspension inside the consume window, every session method returns a merged selection, merge applies both halves, maildir full diff, flag-key mirror coherence, diff machinery reads snapshots not live objects, change-log buckets / UID records dropped only when empty / absent, deferred removals dropped only by applying them',
          'post-dominance pairing + suspension-window path query + return-value provenance (ast CFG)'),
  'C03': ('static decision of R3.1-R3.8: verbatim provenance of message bytes append->store->fetch, slice-bound soundness (no -1 stop sentinel), len/write agreement of Writeable subclasses, header/body partition, partial-range arithmetic, size source, COPY payload provenance, whole-section getters return the stored part, rfc822 unwrapping only for named parts, BODYSTRUCTURE octet counts measure what BODY[part] returns',
          'taint/provenance over allowed byte operations + slice-shape matching + sibling agreement (ast)'),
@@ -17,9 +17,9 @@ P = {
          'field-ownership enumeration + lock-scope containment + def-use (ast)'),
  'C05': ('static decision of R5.1-R5.9: command class hierarchy vs hand-transcribed RFC state table, handler exhaustiveness, gate dominance on every route to a handler, select-clears-first, close-always-deselects, logout shape, refused=>untouched, state-field ownership, every CLOSE return has deselected, truth-tested state classes define no __len__/__bool__',
          'table agreement + CFG dominance + who-may-call enumeration (ast)'),
- 'C06': ('static decision of R6.1-R6.13: loop progress of every parser loop, exception-escape sets at the parse and execution boundaries, recursion-cycle bounds on the resolved call graph, BYE on every loop-body escape, bound-before-allocation dominance, None-flow, continuation requests only where handled, stream-collecting loops test the fresh line, run-time regexes escape client text and do not let the client choose the number of unbounded quantifiers, int() only of bounded digit runs, third-party SASL calls under a ValueError handler',
+ 'C06': ('static decision of R6.1-R6.16: loop progress of every parser loop, exception-escape sets at the parse and execution boundaries, recursion-cycle bounds on the resolved call graph, BYE on every loop-body escape, bound-before-allocation dominance, None-flow, continuation requests only where handled, stream-collecting loops test the fresh line, run-time regexes escape client text and do not let the client choose the number of unbounded quantifiers, int() only of bounded digit runs, third-party SASL calls under a ValueError handler, escape set of the connection\'s own I/O helpers vs the handlers of the command loop (with a regex totality fact), frozen may-raise facts about the stdlib email package (header registry, SingleAddressHeader.address) handled where called',
          'loop-progress fixpoint + exception-escape analysis + SCCs over a resolved call graph (ast, re._parser)'),
- 'C07': ('static decision of R7.1-R7.10: quoted-string admission guard vs grammar, escape set language, direct QuotedString constructions, modutf7 output range, CRLF termination of every response writer, echo charset of tag/atom patterns, balanced delimiters, literal length agreement, client-chosen FETCH section parts echoed through a quoting serialiser, lazily rendered values written only with their content provider set',
+ 'C07': ('static decision of R7.1-R7.14: quoted-string admission guard vs grammar, escape set language, direct QuotedString constructions, modutf7 output range, CRLF termination of every response writer, echo charset of tag/atom patterns, balanced delimiters, literal length agreement, client-chosen FETCH section parts echoed through a quoting serialiser, lazily rendered values written only with their content provider set, loaded-message accessors contain the no-content signal, variable-length ENVELOPE/BODYSTRUCTURE lists only when non-empty, disposition position is (type params)/NIL, multipart only with parts',
          'regex-language facts (re._parser) + guard truth tables + post-dominance (ast)'),
  'C08': ('static decision of R8.1-R8.5: client mailbox names reach filesystem sinks only through a validator on every call chain in both maildir layouts, INBOX guards before remove/rename, per-identity keying of the dict store, the validated name is used as validated (no transform between validation and sink), no per-user state in class-level containers',
          'must-pass-through taint on the call graph + dominance (ast)'),
@@ -31,7 +31,7 @@ P = {
          'exception-escape sets + regex-language facts + dominance (ast, re._parser)'),
  'C12': ('static decision of R12.1-R12.6: every mutator call in the session layer dominated by a read-only guard, \\Recent claim guard, CLOSE guard, readonly has one writer, read-only selection never the recipient of the Recent mark of a new message',
          'CFG dominance of raise-guards over mutator call sites (ast)'),
- 'C13': ('static decision of R13.1-R13.8: parser-key <-> criteria dispatch exhaustiveness, flag/op tables vs RFC 3501 6.4.4, connectives, requirement covers data read, prefilter subset of conjuncts, UID/seq reporting, sequence-set criteria bounds and OR requirement union, search-key identity covers the negation',
+ 'C13': ('static decision of R13.1-R13.9: parser-key <-> criteria dispatch exhaustiveness, flag/op tables vs RFC 3501 6.4.4, connectives, requirement covers data read, prefilter subset of conjuncts, UID/seq reporting, sequence-set criteria bounds and OR requirement union, search-key identity covers the negation, the BODY/TEXT scan over MIME parts stops early only on a match',
          'table extraction and agreement (ast)'),
  'C14': ('static decision of R14.1-R14.6: no real suspension point between source removal and destination insert in move, loop of persistent appends needs rollback, raise-before-first-mutation, UID chosen under the destination lock, maildir file without UID record removed again, rollback handler catches BaseException and the storage step is not detached, no self-held lock while a message is in transit',
          'suspension-classified path query + dominance (ast CFG)'),
@@ -41,7 +41,7 @@ P = {
          'control-dependence + suspension-window path query (ast CFG)'),
  'C17': ('static decision of R17.1-R17.9: \\Recent removed at every entry to the settable universe, stored/session recent complementarity, claim pairs with clearing without suspension, read-only never a recipient, RECENT count sources, claimed set materialised, COPY does not carry the source recent mark (both backends), maildir claim only after its own rename succeeded',
          'def-use + truth-table complementarity + dominance (ast)'),
- 'C18': ('static decision of R18.1-R18.8: cached raw span = consumed span, literal branches converge, command word normalisation, writer/reader format tables agree, modified-UTF-7 encoder escapes and range tests, all line input through the {n+}-collecting reader, parsers take string arguments by value not by wire spelling',
+ 'C18': ('static decision of R18.1-R18.9: cached raw span = consumed span, literal branches converge, command word normalisation, writer/reader format tables agree, modified-UTF-7 encoder escapes and range tests, all line input through the {n+}-collecting reader, parsers take string arguments by value not by wire spelling, UTF-7 shift markers removed by position',
          'slice-bound equality + table agreement (ast, re._parser)'),
  'C19': ('static decision of R19.1-R19.7: gate dominance before every script operation, _state ownership, command exhaustiveness, delete-active guard, rename carries active, verbatim put/get, self-rename never reaches store-then-delete, sieve state only from verified credentials',
          'CFG dominance + dispatch exhaustiveness (ast)'),
